@@ -4,6 +4,7 @@
      boundaries (so 65535 as u2 meets 65536 as u4, values compare across widths), both argument orders by construction.
 (ii) every fraction s/u with 1<=u<=U, 0<=s<=u, in three interleavings, rotating through the dtype pairs.
 (iii) arrays of other dtypes are rejected.
+(v) very unequal sizes (1-3 against 40..2000 elements) with values packed at the top of each integer range, all 36 dtype pairs, both orders.
 (iv) large arrays (sizes around powers of two up to 2^17+1, thorough 2^20+1) in seven fixed overlap patterns, expected values from counting formulas.
 Oracle: exact Fraction rounded once to binary32 by integer arithmetic (refmodel.f32_bits_of_fraction).
 """
@@ -45,6 +46,8 @@ def plan(tier, seed):
 	tasks.append(('t_reject', dict()))
 	for part in range(4):
 		tasks.append(('t_large', dict(part=part, nparts=4, tier=tier)))
+	for da in DTYPES:
+		tasks.append(('t_skewed', dict(da=da, tier=tier)))
 	return tasks
 
 
@@ -133,6 +136,48 @@ def t_fractions(U, shard, nshards, seed):
 	return sh
 
 
+def dtype_max(dt):
+	return 2 ** (int(dt[1]) * 8 - (1 if dt[0] == 'i' else 0)) - 1
+
+
+def t_skewed(da, tier):
+	"""Very unequal sizes (1-3 elements against 40 / 200 / 2000, thorough 20000) with the values packed at the top of the integer ranges -
+	consecutive values above 2^53 are exactly where a detour through floating point (searchsorted / isin on promoted arrays) loses elements."""
+	import numpy as np
+	from gambit.metric import jaccarddist
+	sh = Shard()
+	sizes = [40, 200, 2000] + ([20000] if tier != 'quick' else [])
+	for db in DTYPES:
+		for n in sizes:
+			for place in ('top-of-b', 'top-of-common', 'low'):
+				top = dtype_max(db) if place == 'top-of-b' else min(dtype_max(da), dtype_max(db)) if place == 'top-of-common' else 3 * n + 7
+				step = 1 if top - n > 0 and place != 'low' else 3
+				if top - step * n < 0:
+					continue
+				large = list(range(top - step * (n - 1), top + 1, step))
+				cands = [large[0], large[n // 2], large[-1], large[-1] - 1 if step == 1 and n > 1 else large[-1], large[n // 3] + (1 if step > 1 else 0), 0, 1]
+				cands = sorted({c for c in cands if 0 <= c <= dtype_max(da)})
+				smalls = [[c] for c in cands] + [sorted(set(t)) for t in itertools.combinations(cands, 3)][:12]
+				L = np.array(large, dtype=db)
+				Lset = set(large)
+				for small in smalls:
+					S = np.array(small, dtype=da)
+					sset = set(small)
+					u = len(Lset | sset)
+					exp = R.f32_bits_of_fraction(Fraction(len(Lset ^ sset), u))
+					for x, y, order in ((S, L, 'small-first'), (L, S, 'large-first')):
+						got = f32bits(jaccarddist(x, y))
+						sh.evals += 1
+						if got != exp:
+							sh.violation('jaccarddist-skewed', dict(da=da, db=db, n=n, place=place, small=small, order=order), exp, got)
+					sh.nontrivial += 1
+					if sset & Lset:
+						sh.count('skewed_pairs_with_shared_top_values')
+					sh.outcome(['skewed', exp])
+	sh.sample(dict(family='skewed', da=da, db=db, n=n, place=place, small=small, large_tail=large[-3:]))
+	return sh
+
+
 def t_large(part, nparts, tier):
 	"""Sizes around powers of two up to 2^17+1 (thorough 2^20+1) in fixed overlap patterns: a size-keyed shortcut or a narrow counter would show here.
 	Expected values come from counting formulas (exact rationals), not from materialised Python sets."""
@@ -212,6 +257,7 @@ def finalize(agg, tier):
 	agg.require('merge_ends_with_one_array_exhausted', 1000)
 	agg.require('rejected', 10)
 	agg.require('large_pairs', 50)
+	agg.require('skewed_pairs_with_shared_top_values', 100)
 	if len(agg.outcomes) < 1000:
 		from mc.core import Vacuous
 		raise Vacuous(f'only {len(agg.outcomes)} distinct result bit patterns')
@@ -219,6 +265,8 @@ def finalize(agg, tier):
 
 def replay(case, kind=None):
 	sh = Shard()
+	if 'place' in case:
+		return [v for v in t_skewed(case['da'], 'thorough').violations if v['case'] == case]
 	if 'pattern' in case:
 		return [v for part in range(4) for v in t_large(part, 4, 'thorough').violations if v['case'] == case]
 	if 'A' in case:
